@@ -834,6 +834,9 @@ static void gen_cursor(hctx* h) {
             snprintf(s.names[c], sizeof s.names[c], "col%d", c);
         }
         if (s.ncol >= 2 && h_chance(h, 1, 8)) strcpy(s.names[s.ncol - 1], s.names[0]);   /* duplicate name */
+        /* a name with a dot whose last component is the name of another column (a flat column may be called "a.b": the
+         * name is the whole string, not a path) */
+        else if (s.ncol >= 2 && h_chance(h, 1, 4)) snprintf(s.names[s.ncol - 1], sizeof s.names[s.ncol - 1], "g.%s", s.names[0]);
         int maxrows = 1;
         for (int g = 0; g < s.nrg; g++) {
             int rows = 1 + (int)h_below(h, h_chance(h, 1, 3) ? 60 : 14);
